@@ -75,6 +75,14 @@ Theorem C17_addr_total : forall exists_ addr env,
 Proof. intros. split; [apply addr_total|apply session_total]. Qed.
 Print Assumptions C17_addr_total.
 
+(* get_system_bus_path: the fixed path, when it exists *)
+Theorem C17_system_bus_path : forall exists_,
+  get_system_bus_path exists_
+  = (if exists_ SYSTEM_BUS then Ok (Path SYSTEM_BUS) else Err)
+  /\ SYSTEM_BUS = [47;114;117;110;47;100;98;117;115;47;115;121;115;116;101;109;95;98;117;115;95;115;111;99;107;101;116].
+Proof. intros e. split; reflexivity. Qed.
+Print Assumptions C17_system_bus_path.
+
 (* ------------------------------------------------------------------ auth *)
 (* the AUTH argument: ASCII-hex of the decimal digits of the uid, for every 32-bit uid (0 gives "30") *)
 Theorem C17_uid_hex : forall uid, uid < 2 ^ 32 ->
